@@ -68,8 +68,10 @@ DiffProps(d, ev) ==
     [] d[1] = "outs" -> (IF Len(d) >= 3 /\ d[3] = "executed" THEN {"C14"} ELSE {"C09", "C07", "C11"})
     [] OTHER -> {}
 \* chain-record diffs carry the path <<k, "ch", i, field>>
+\* parameters change at EndBlock only through a proposal, all of whose messages take effect or none (C14): a parameter
+\* structure that deviates there is a proposal that was applied in part, or rolled back in the store but not in what the module uses
 PathProps(d, ev) == IF d[1] \in {"wrk", "bcn"} /\ d[2] = "ch" THEN (IF Len(d) >= 4 THEN ChFieldProps(d[4]) ELSE {"C09"})
-                    ELSE DiffProps(d, ev)
+                    ELSE DiffProps(d, ev) \cup (IF Len(d) >= 2 /\ d[2] = "p" /\ ev.a = "EndBlock" THEN {"C14"} ELSE {})
 
 \* an import after which a registration reads records it did not hold before is one entity reading another one's storage
 ImportAliasProps(d) == IF d[1] \in {"wrk", "bcn"} /\ d[2] = "ch" /\ Len(d) >= 4 /\ d[4] \in {"recs", "iter"} THEN {"C18"} ELSE {}
